@@ -3,7 +3,7 @@
    region stack, index/slice/unwrap panics); layer A = the reference decoder on lists. *)
 From Coq Require Import NArith ZArith List.
 From Desert Require Import Outcome IO IOProofs Types Codec CodecB CodecWf TotalProofs SimProofs
-  MonoProofs PropLemmas TermProofs SizeProofs.
+  MonoProofs PropLemmas TermProofs SizeProofs SizeQuad.
 Import ListNotations.
 Open Scope N_scope.
 
@@ -118,6 +118,22 @@ Theorem C05_size_linear_anywhere : forall f E t s v s',
   vsize v <= size_const E t * (1 + (nlen (a_cur s) - nlen (a_cur s'))).
 Proof. exact decA_size_linear. Qed.
 
+(* ... and the blow-up of F30 is the worst there is: for EVERY type (de-duplicated strings allowed) the decoded value
+   is at most size_const E t * (bytes consumed + 1) * (longest string a back-reference can return + 1), and the longest
+   such string is either in the table the run starts with or was read from the input - from an empty table, at most
+   quadratic in the input. *)
+Theorem C05_size_quadratic : forall f E t bs v rest st',
+  nzw_env E = true -> nzw_ty t = true ->
+  decodeA f E t bs [] = Ok (v, rest, st') ->
+  vsize v <= size_const E t * (1 + nlen bs) * (1 + nlen bs).
+Proof. exact decodeA_size_quadratic_fresh. Qed.
+
+Theorem C05_size_quadratic_anywhere : forall f E t s v s',
+  nzw_env E = true -> nzw_ty t = true ->
+  dec a_ops f E t s = Ok (v, s') ->
+  vsize v <= size_const E t * (1 + (nlen (a_cur s) - nlen (a_cur s'))) * (1 + strs_bound s).
+Proof. exact decA_size_quadratic. Qed.
+
 (* non-vacuity: the recursive list of C05_prompt_example has constant 5; a record with a FieldAdded default and a
    transient default has constant 25 *)
 Example C05_size_examples :
@@ -161,3 +177,5 @@ Print Assumptions C05_terminates_bound.
 Print Assumptions C05_size_refuted.
 Print Assumptions C05_size_linear.
 Print Assumptions C05_size_linear_anywhere.
+Print Assumptions C05_size_quadratic.
+Print Assumptions C05_size_quadratic_anywhere.
